@@ -4,8 +4,11 @@
      get h4 | put h3 | add h3 <hexkey> h4 | del h3 <hexkey>
      addx h3 <hexkey> h4 <flags>   json_object_object_add_ex; flags: 1 = KEY_IS_NEW, 2 = CONSTANT_KEY
      aadd h5 h4 | aput h5 2 h4 | ains h5 1 h4 | adel h5 0 2
-     reg h4 <regno> <u> <d> <s>   set_userdata (s=0) / set_serializer with NULL (s=1) or custom (s=2)
-                                  function; u: userdata non-NULL, d: delete callback given
+     reg h4 <regno> <u> <d> <s>   set_userdata (s=0) / set_serializer with NULL (s=1), a custom function
+                                  (s=2), json_object_userdata_to_json_string (s=3) or
+                                  json_object_double_to_json_string (s=4); u: userdata non-NULL,
+                                  d: delete callback given
+     setv h4 bool|int|int64|uint64|inc|dbl|str|strlen   the value setters (json_object_set_*, int_inc)
      copy h6=h3 (shallow-copy function that installs callbacks) | copyd h6=h3 (NULL)
      ptrset h3 <hexpath|-> h4 | use h4
      padd h3 <hexpath> h4 | prepl h3 <hexpath> h4 | prem h3 <hexpath> | pcopy h3 <hexfrom> <hexpath>
@@ -37,16 +40,25 @@ let parse_op (s : string) : op * z option =
     (match rhs with
      | "newobj" -> (ONew KObject, Some lhs)
      | "newarr" -> (ONew KArray, Some lhs)
-     | "newbool" | "newdbl" -> (ONew KScalar, Some lhs)
+     | "newbool" -> (ONew (KScalar TBool), Some lhs)
+     | "newdbl" -> (ONew (KScalar TDouble), Some lhs)
+     | "newdbls" -> (ONewDoubleS, Some lhs)      (* json_object_new_double_s: retains its text *)
      | _ -> failwith "ctor")
   | [a; _] when String.contains a '=' && (let i = String.index a '=' in
                                           let r = String.sub a (i + 1) (String.length a - i - 1) in r = "newint" || r = "newstr") ->
-    let i = String.index a '=' in (ONew KScalar, Some (hid1 (String.sub a 0 i)))
+    let i = String.index a '=' in
+    let r = String.sub a (i + 1) (String.length a - i - 1) in
+    (ONew (KScalar (if r = "newint" then TInt else TString)), Some (hid1 (String.sub a 0 i)))
   | ["copy"; a] | ["copyd"; a] as l ->
     let i = String.index a '=' in
     let lhs = hid1 (String.sub a 0 i) and src = hid1 (String.sub a (i + 1) (String.length a - i - 1)) in
     (OCopy (src, List.hd l = "copy"), Some lhs)
   | ["get"; a] -> (OGet (hid1 a), None)
+  | ["setv"; a; w] ->
+    let w = (match w with
+      | "bool" -> SBool | "int" -> SInt | "int64" -> SInt64 | "uint64" -> SUint64 | "inc" -> SIntInc
+      | "dbl" -> SDouble | "str" -> SString | "strlen" -> SStringLen | _ -> failwith "setter") in
+    (OSetVal (hid1 a, w), None)
   | ["put"; a] -> (OPut (hid1 a), None)
   | ["add"; p; k; v] -> (OObjAdd (hid1 p, bytes_of_hex k, hid v), None)
   | ["addx"; p; k; v; f] ->
@@ -62,10 +74,13 @@ let parse_op (s : string) : op * z option =
   | ["use"; a] -> (OUse (hid1 a), None)
   | _ -> failwith ("heap op: " ^ s)
 
+(* registration -1 is the library's own (json_object_new_double_s): no callback of the caller *)
+let is_lib t = int_of_z t = -1
 let ev_str = function
-  | EDestroy (i, Some t) -> Some (Printf.sprintf "d%s.%s" (string_of_z i) (string_of_z t))
-  | EDestroy (_, None) -> None
-  | EUser (i, t) -> Some (Printf.sprintf "u%s.%s" (string_of_z i) (string_of_z t))
+  | EDestroy (i, Some t) when not (is_lib t) -> Some (Printf.sprintf "d%s.%s" (string_of_z i) (string_of_z t))
+  | EDestroy (_, _) -> None
+  | EUser (i, t) when not (is_lib t) -> Some (Printf.sprintf "u%s.%s" (string_of_z i) (string_of_z t))
+  | EUser (_, _) -> None
 let evs_str l =
   match List.filter_map ev_str l with [] -> "-" | xs -> String.concat "," xs
 
@@ -77,11 +92,11 @@ let rec dump h depth (v : z option) =
     match hfind h i with
     | None -> "DEAD" ^ string_of_z i
     | Some n ->
-      let idt = match n.cb with Some t -> string_of_z i ^ "." ^ string_of_z t | None -> "?" in
-      let k = match n.nkind with KScalar -> "s" | KArray -> "a" | KObject -> "o" in
+      let idt = match n.cb with Some t when not (is_lib t) -> string_of_z i ^ "." ^ string_of_z t | _ -> "?" in
+      let k = match n.nkind with KScalar _ -> "s" | KArray -> "a" | KObject -> "o" in
       let head = Printf.sprintf "%s%s%s#%s" k idt (if n.ud then "u" else "-") (string_of_z n.rc) in
       (match n.nkind with
-       | KScalar -> head
+       | KScalar _ -> head
        | KArray -> head ^ "[" ^ String.concat "," (List.map (fun (_, c) -> dump h (depth + 1) c) n.children) ^ "]"
        | KObject ->
          (* an entry whose key storage belongs to the caller (k_is_constant) is printed with '*' *)
@@ -232,7 +247,7 @@ let run line =
       | RFuel -> out := "FUEL" :: !out; stopped := true; raise Exit) ops
   with Exit -> ());
   if not !stopped then begin
-    let alive = List.length (List.filter (fun (_, n) -> n.cb <> None) !st.heap_of) in
+    let alive = List.length (List.filter (fun (_, n) -> match n.cb with Some t -> not (is_lib t) | None -> false) !st.heap_of) in
     out := Printf.sprintf "end %d 0" alive :: !out
   end;
   String.concat " | " (List.rev !out)
